@@ -373,7 +373,38 @@ func enclosing(root ast.Node, target ast.Node) []ast.Node {
 }
 
 // Commands finds every function of package main that calls TryCache.
+// textEncoders / payloadEncoders: functions of package main recognised by what
+// their body does, not by their name: `return hex|base64.EncodeToString(param)`
+// and "json.Marshal of the single parameter".
+var textEncoders, payloadEncoders map[string]bool
+
+func deriveEncoders(p *core.Prog) {
+	textEncoders, payloadEncoders = map[string]bool{}, map[string]bool{}
+	info := p.Info(core.PkgMain)
+	for _, fd := range p.FuncDecls(core.PkgMain) {
+		if fd.Body == nil || fd.Recv != nil || fd.Type.Params.NumFields() != 1 || len(fd.Type.Params.List[0].Names) != 1 {
+			continue
+		}
+		param := info.Defs[fd.Type.Params.List[0].Names[0]]
+		id := core.PkgMain + "." + fd.Name.Name
+		if len(fd.Body.List) == 1 {
+			if ret, ok := fd.Body.List[0].(*ast.ReturnStmt); ok && len(ret.Results) == 1 {
+				if c, ok := ast.Unparen(ret.Results[0]).(*ast.CallExpr); ok && len(c.Args) == 1 && core.ObjOf(info, c.Args[0]) == param &&
+					core.IsCallTo(info, c, "encoding/hex.EncodeToString", "encoding/base64.Encoding.EncodeToString") {
+					textEncoders[id] = true
+				}
+			}
+		}
+		for _, c := range core.Calls(fd.Body) {
+			if core.IsCallTo(info, c, "encoding/json.Marshal") && len(c.Args) == 1 && core.ObjOf(info, c.Args[0]) == param {
+				payloadEncoders[id] = true
+			}
+		}
+	}
+}
+
 func commands(p *core.Prog) []*command {
+	deriveEncoders(p)
 	info := p.Info(core.PkgMain)
 	var out []*command
 	for _, fd := range p.FuncDecls(core.PkgMain) {
@@ -439,7 +470,7 @@ func commands(p *core.Prog) []*command {
 		// payload literal
 		if len(try.Args) == 2 {
 			e := core.Origin(info, asg, try.Args[1])
-			if ec, ok := e.(*ast.CallExpr); ok && core.IsCallTo(info, ec, idEncode) && len(ec.Args) == 1 {
+			if ec, ok := e.(*ast.CallExpr); ok && payloadEncoders[core.FuncID(core.Callee(info, ec))] && len(ec.Args) == 1 {
 				if cl, ok := core.Origin(info, asg, ec.Args[0]).(*ast.CompositeLit); ok {
 					cm.payload = cl
 				}
@@ -677,11 +708,15 @@ func isDigest(info *types.Info, asg map[types.Object][]core.Assign, e ast.Expr) 
 		switch id {
 		case "hash.Hash.Sum":
 			return true
-		case core.PkgMain + ".encodeToString", "encoding/hex.EncodeToString", "encoding/base64.Encoding.EncodeToString":
+		case "encoding/hex.EncodeToString", "encoding/base64.Encoding.EncodeToString":
 			if len(c.Args) == 1 {
 				e = c.Args[0]
 				continue
 			}
+		}
+		if textEncoders[id] && len(c.Args) == 1 {
+			e = c.Args[0]
+			continue
 		}
 		return false
 	}
